@@ -24,7 +24,12 @@ OBLIGATIONS = [
 DESIGN_REF = "DESIGN.md §5 C04"
 LEVEL_TEXT = ("Partial proof. Proved in Lean for all codepoint sequences and every hash: a glyph name starts with a letter and uses only [A-Za-z0-9_]; "
               "the advance rule (C01.b); the prefix rule and the separation of the (U+0067, X...) / (X...) family that used to collide (F1, found by the "
-              "proof attempt, repaired in /repo by a fix: commit). NOT proved: full injectivity, the shaping theorem. Those are covered "
+              "proof attempt, repaired in /repo by a fix: commit); full injectivity of un-hashed names (C10.glyphName_injective); the shaping theorem "
+              "`shape_own_sequence`: in a model of GSUB ligature substitution (first match in table order), if longer ligatures come first and "
+              "no two rules share a sequence, every source's own sequence shapes to exactly its own ligature glyph, also when another source's "
+              "sequence is a proper prefix (and `shortest_first_breaks` shows the order hypothesis is needed). The hypotheses are checked on the "
+              "LigatureSets of every real font and the Lean shaper is compared with the harness shaper on source sequences and concatenations. "
+              "NOT proved: that feaLib emits exactly the rules generate_fea lists. The rest is covered "
               "by correspondence (glyph_name, from_filename vs the Lean functions incl. >63-char names) and by shaping REAL fonts in all 13 formats "
               "(cmap + generated ccmp ligatures, also after the OT-SVG reshuffle): each source's sequence must reach exactly the glyph that carries "
               "its artwork, distinct sources distinct glyphs; glyph 0 is .notdef with an outline, U+0020 maps to a blank glyph, sequence-only "
